@@ -158,20 +158,38 @@ theorem mint_field_offsets (v : Val) (hv : wt env Kind.mint.desc v = true) :
 
 /-! ### the cache -/
 
-/-- **offsets computed from cached metadata equal offsets computed without it** -/
-theorem cached_offsets_eq_uncached (id : Bytes) (t t' : Tx) (h : Tx.precompute id t = .ok t') :
+/-- the order of effects of the five `precompute` bodies, regenerated from the Rust sources on every run: reset first, store last -/
+theorem precompute_resets_first : Tx.stepsOf .script = [.reset, .common, .script, .store] ∧ Tx.stepsOf .create = [.reset, .common, .other, .store] ∧
+    Tx.stepsOf .upgrade = [.reset, .common, .other, .store] ∧ Tx.stepsOf .upload = [.reset, .common, .store] ∧
+    Tx.stepsOf .blob = [.reset, .common, .store] := precompute_order
+
+/-- **offsets computed from cached metadata equal offsets computed without it** — for an object that may already carry a (stale)
+cache when `precompute` is called: `t` is arbitrary -/
+theorem cached_offsets_eq_uncached (idOf : Tx → Bytes) (t t' : Tx) (hk : t.kind.chargeable = true) (h : Tx.precompute idOf t = .ok t') :
     let t0 : Tx := { t with metadata := none }
     t'.val = t.val ∧ t'.kind = t.kind ∧ t'.metadata.isSome = true ∧
     t'.inputsOffset = t0.inputsOffset ∧ t'.outputsOffset = t0.outputsOffset ∧ t'.witnessesOffset = t0.witnessesOffset ∧
     (∀ i, t'.inputsOffsetAt i = t0.inputsOffsetAt i) ∧ (∀ i, t'.outputsOffsetAt i = t0.outputsOffsetAt i) ∧
     (∀ i, t'.witnessesOffsetAt i = t0.witnessesOffsetAt i) ∧ (∀ i, t'.inputsPredicateOffsetAt i = t0.inputsPredicateOffsetAt i) ∧
     (t.kind = .script → t'.scriptDataOffset = t0.scriptDataOffset ∧ t'.bodyOffsetEnd = t0.bodyOffsetEnd) :=
-  cached_eq_uncached id t t' h
+  cached_eq_uncached idOf t t' hk h
+
+/-- **any history**: after any sequence of edits through the public mutators (which leave the cache alone) and precomputes that
+ends with a precompute, every cached offset (incl. Script's cached `script_data_offset`) is the uncached offset of the CURRENT content -/
+theorem cached_offsets_current_after_any_history (idOf : Tx → Bytes) (ops : List Op) (t t' : Tx) (hk : t.kind.chargeable = true)
+    (h : runOps idOf t (ops ++ [.precompute]) = .ok t') :
+    let t0 : Tx := { kind := t'.kind, val := t'.val, metadata := none }
+    t'.metadata.isSome = true ∧
+    t'.inputsOffset = t0.inputsOffset ∧ t'.outputsOffset = t0.outputsOffset ∧ t'.witnessesOffset = t0.witnessesOffset ∧
+    (∀ i, t'.inputsOffsetAt i = t0.inputsOffsetAt i) ∧ (∀ i, t'.outputsOffsetAt i = t0.outputsOffsetAt i) ∧
+    (∀ i, t'.witnessesOffsetAt i = t0.witnessesOffsetAt i) ∧ (∀ i, t'.inputsPredicateOffsetAt i = t0.inputsPredicateOffsetAt i) ∧
+    (t'.kind = .script → t'.scriptDataOffset = t0.scriptDataOffset ∧ t'.bodyOffsetEnd = t0.bodyOffsetEnd) :=
+  cached_offsets_after_history idOf ops t t' hk h
 
 /-- the metadata computation cannot fail (`Serialized*TooLarge`) when the encoding fits a `usize` -/
-theorem precompute_total (id : Bytes) (t : Tx)
+theorem precompute_total (idOf : Tx → Bytes) (t : Tx) (hk : t.kind.chargeable = true)
     (hfit : ({ t with metadata := none } : Tx).witnessesOffset + sumSizes (t.witnesses.map Tx.witnessSize) ≤ USIZE_MAX) :
-    ∃ t', Tx.precompute id t = .ok t' := precompute_succeeds id t hfit
+    ∃ t', Tx.precompute idOf t = .ok t' := precompute_succeeds idOf t hk hfit
 
 /-! ### non-vacuity: a concrete script transaction (a message-data predicate after a contract input after a 7-byte
 script, one variable output, one witness) meets the hypotheses, and the model's offsets on it -/
@@ -192,10 +210,20 @@ example : [exT.scriptDataOffset, exT.bodyOffsetEnd, exT.inputsOffset] = [104, 11
 example : [exT.inputsOffsetAt 0, exT.inputsOffsetAt 1, exT.inputsOffsetAt 2, exT.outputsOffsetAt 0, exT.witnessesOffsetAt 0] =
     [some 128, some 288, none, some 472, some 552] := by decide +kernel
 example : [exT.inputsPredicateOffsetAt 0, exT.inputsPredicateOffsetAt 1] = [none, some (456, 8)] := by decide +kernel
-example : (match Tx.precompute [] { kind := .script, val := exTx, metadata := none } with
+example : (match Tx.precompute (fun _ => []) { kind := .script, val := exTx, metadata := none } with
     | .ok t => some (t.inputsOffsetAt 1, t.inputsPredicateOffsetAt 1, t.metadata.isSome)
     | .error _ => none) = some (some 288, some (456, 8), true) := by decide +kernel
 /-- the bytes at the reported predicate offset are the padded predicate -/
 example : ((encode env Kind.script.desc exTx).drop 456).take 8 = [0x24, 0, 0, 0, 0, 0, 0, 0] := by decide +kernel
+
+/-- a second precompute on an object whose script grew by 9 bytes and that still carries the first cache: the cached
+`script_data_offset` and input offsets are those of the new content -/
+example : (match Tx.precompute (fun _ => []) { kind := .script, val := exTx, metadata := none } with
+    | .ok t1 =>
+      (match Tx.precompute (fun _ => []) { t1 with val := Val.ofList [Val.ofList [.int 5, b32, code (List.replicate 16 7), bytesV [9]], Policies.mk 5 [3, 0, 7, 0, 0, 0],
+            Val.ofList [], Val.ofList [], Val.ofList [], .unit] } with
+       | .ok t2 => some (t1.scriptDataOffset, t2.scriptDataOffset, t2.inputsOffset)
+       | .error _ => none)
+    | .error _ => none) = some (104, 112, 136) := by decide +kernel
 
 end FuelVerif.C04
